@@ -121,6 +121,7 @@ def run(ctx):
     _, sstats, shist, ssamples, snd = SC.run_property(ctx, MODULE, prof, 200, 4000, [smon], skeep, length=(8, 26), verdict=v)
     stats["session_scripts"] = sstats["scripts"]
     stats["session_unsupported"] = sstats["unsupported"]
+    stats["session_not_reproduced"] = sstats.get("hits_not_reproduced", 0) + sstats.get("diffs_not_reproduced", 0)
     stats["session_ops_by_kind"] = shist
     ev = stats["wt"] + stats["wb"]
     cov = C.proof_coverage(ctx, {
